@@ -4,6 +4,7 @@ CONSTANTS Node = {"A", "B"}
           MaxWire = 4
           Senders = {"A", "B"}
           Guided = FALSE
+          Spoof = FALSE
           Depth = 0
 INVARIANTS Authentic CurrentSession ResponderKeys KeysPrivate ChallengeOwn
 VIEW View
